@@ -166,6 +166,18 @@ func AddTorrent(ctx context.Context, t *Torrent) (*Torrent, error) {
 func (t *Torrent) run(ctx context.Context) {
 	defer func() {
 		close(t.Done)
+		// nobody will run the peers that are still waiting to be added
+	drain:
+		for {
+			select {
+			case e := <-t.Event:
+				if a, ok := e.(peer.TorAddPeer); ok {
+					a.Peer.Close()
+				}
+			default:
+				break drain
+			}
+		}
 		t.Pieces.Del()
 	}()
 
@@ -1506,6 +1518,13 @@ func (t *Torrent) NewPeer(proxy string, conn net.Conn, addr netip.AddrPort, inco
 
 	select {
 	case t.Event <- peer.TorAddPeer{p, init}:
+		select {
+		case <-t.Done:
+			// the event may have been queued after the torrent died
+			conn.Close()
+			return ErrTorrentDead
+		default:
+		}
 		return nil
 	case <-t.Done:
 		conn.Close()
